@@ -5,6 +5,7 @@ import (
 	"os"
 	"path/filepath"
 	"strings"
+	"time"
 
 	"google.golang.org/protobuf/proto"
 
@@ -69,6 +70,11 @@ func (w *wbuild) setupFaults(m *Machine) {
 			fs.fired++
 		},
 	}
+	if w.focus == "signal" {
+		// slow disk in half of the interrupt runs: the process may end while a cache write is in flight
+		simos.Plan.SlowCopy = []time.Duration{0, 0, 200 * time.Millisecond, 2 * time.Second}[c.Choose(4, "slow-copy")]
+		simos.Plan.SlowUnder = m.Root
+	}
 	base := simos.Plan.PerMille
 	hot := c.Choose(2, "fault-hot-restore") == 1
 	simos.Plan.Rate = func(op, path, kind string) int {
@@ -105,7 +111,14 @@ func (w *wbuild) auditCache(m *Machine, when string) {
 // local cache is a read-through / write-through mirror of.
 func (w *wbuild) auditCacheWith(m *Machine, when string, alsoHave func(digest string) bool) {
 	report := func(class, sig, detail string) {
-		w.s.Report(simrt.Violation{Prop: "C07", Class: class, Signature: sig, Detail: when + ": " + detail})
+		prop := "C07"
+		if w.fs != nil && w.fs.sigStep != 0 && !w.fs.crashed {
+			// left behind by an invocation that was interrupted (not killed): "SIGINT ... records no
+			// cache entry for interrupted targets / leaves a recoverable state" is C18's clause
+			prop, class = "C18", "interrupted-build-left-"+class
+			detail = fmt.Sprintf("SIGINT was delivered at step %d of this invocation; %s", w.fs.sigStep, detail)
+		}
+		w.s.Report(simrt.Violation{Prop: prop, Class: class, Signature: sig, Detail: when + ": " + detail})
 	}
 	for _, cd := range cacheDirs(m) {
 		casDir := filepath.Join(cd, "cas")
@@ -209,6 +222,40 @@ func (w *wbuild) damageCache(m *Machine, wipeAll bool) string {
 			}
 		}
 		files, k, rel = keep, 0, "all blobs "
+	}
+	if k > 0 && c.Choose(4, "damage-dir-files") == 3 {
+		// the file blobs of one directory output are lost while its tree blob and the target
+		// result survive: every file download of that restore fails
+		ev := NewEval(w.U, "linux/amd64")
+		var dirs []string
+		for _, l := range w.U.Labels() {
+			for _, o := range w.U.Specs[l].Outs {
+				if o.Kind == "dir" {
+					dirs = append(dirs, l)
+					break
+				}
+			}
+		}
+		if len(dirs) > 0 {
+			l := dirs[c.Choose(len(dirs), "damage-dir-target")]
+			lost := 0
+			for _, e := range ev.Clean(l) {
+				if e.Kind != "file" {
+					continue
+				}
+				d := hashing.HashBytes([]byte(e.Data))
+				for _, cd := range cacheDirs(m) {
+					if os.Remove(filepath.Join(cd, "cas", d)) == nil {
+						simrt.Fault("blob-missing")
+						lost++
+					}
+				}
+			}
+			if lost > 0 {
+				rel += fmt.Sprintf("%d file blobs of the directory output of %s ", lost, l)
+				k = 0
+			}
+		}
 	}
 	for i := 0; i < k && len(files) > 0; i++ {
 		j := c.Choose(len(files), "damage-file")
